@@ -307,6 +307,29 @@ Section MAC.
     || existsb (fun k => bytes_eqb (core_mac (s_mat k) data) tag) (filter s_is_raw ks).
 End MAC.
 
+(* ---------- BBS+ multi-message signatures (SignMulti / VerifyMulti) in the generic-group view ----------
+   The signature binds the commitment  h0^s * prod h_i^(m_i).  Positions: 0 = the blinding factor s, i+1 = message i.
+   `gen pos` is the IDENTITY of the generator the key derivation yields for a position (equal identities = equal group
+   elements); in the generic group two commitments are equal iff every generator identity has the same total exponent. *)
+Fixpoint coeff (gen : nat -> nat) (i0 : nat) (ms : list Z) (g : nat) : Z :=
+  match ms with
+  | [] => 0%Z
+  | m :: r => ((if Nat.eqb (gen i0) g then m else 0) + coeff gen (S i0) r g)%Z
+  end.
+Definition commit_eqb (gen : nat -> nat) (bound : nat) (a b : list Z) : bool :=
+  Nat.eqb (length a) (length b) &&
+  forallb (fun g => Z.eqb (coeff gen 0 a g) (coeff gen 0 b g)) (seq 0 bound).
+(* VerifyMulti of a signature made over `signed`, presented with `presented` (ideal signature on the commitment) *)
+Definition bbs_accepts (gen : nat -> nat) (bound : nat) (signed presented : list Z) : bool :=
+  commit_eqb gen bound signed presented.
+Fixpoint upd (i : nat) (x : Z) (l : list Z) : list Z :=
+  match l, i with
+  | [], _ => []
+  | _ :: r, O => x :: r
+  | y :: r, S k => y :: upd k x r
+  end.
+Definition swap (i j : nat) (l : list Z) : list Z := upd i (nth j l 0%Z) (upd j (nth i l 0%Z) l).
+
 (* ---------- the key-type table row (filled by the translator, coq/gen/Gen_C04.v) ---------- *)
 Inductive kkind := KSig | KAead | KMac | KOther.
 Record ktrow := {
